@@ -32,8 +32,55 @@ def handleIdent (c : String) (j : Json) : Json :=
   | "ident.decimal" => Json.mkObj [("s", String.ofList (Ident.decimal (nat j "n")))]
   | _ => err "unknown-ident"
 
+/-! ### Lock -/
+def lockAct (j : Json) : Option Lock.Act :=
+  match j with
+  | Json.arr a =>
+    match a.toList with
+    | [Json.str k, n] =>
+      match n.getNat? with
+      | .ok r =>
+        match k with
+        | "enq" => some (.enq r) | "wake" => some (.wake r) | "rel" => some (.rel r) | "brk" => some (.brk r)
+        | _ => none
+      | _ => none
+    | _ => none
+  | _ => none
+
+def pcName : Lock.PC → String
+  | .idle => "idle" | .waiting => "waiting" | .inCS => "inCS" | .breaking => "breaking"
+  | .doneOk => "doneOk" | .doneExc => "doneExc" | .lockErr => "lockErr"
+
+/-- Replays an action list through `Lock.step`; reports the first action that is not enabled. -/
+def lockRun (s : Lock.St) (acts : List Lock.Act) (k : Nat) : Lock.St × Option Nat :=
+  match acts with
+  | [] => (s, none)
+  | a :: as =>
+    match Lock.step s a with
+    | none => (s, some k)
+    | some s' => lockRun s' as (k + 1)
+
+def handleLock (c : String) (j : Json) : Json :=
+  match c with
+  | "lock.run" =>
+    let acts := (arr j "acts").filterMap lockAct
+    if acts.length ≠ (arr j "acts").length then err "bad-action" else
+    let reqs := (arr j "reqs").filterMap (fun x => x.getNat?.toOption)
+    let (s, bad) := lockRun Lock.init acts 0
+    Json.mkObj [
+      ("enabled", Json.bool bad.isNone),
+      ("failed_at", match bad with | some k => toJson k | none => Json.null),
+      ("pcs", Json.arr (reqs.map (fun (r : Nat) => Json.arr #[toJson r, Json.str (pcName (s.pc r))])).toArray),
+      ("results", Json.arr (s.results.map (fun (p : Nat × Nat) => Json.arr #[toJson p.1, toJson p.2])).toArray),
+      ("entries", Json.arr (s.entries.map (fun (r : Nat) => toJson r)).toArray),
+      ("arrivals", Json.arr (s.arrivals.map (fun (r : Nat) => toJson r)).toArray),
+      ("broken", Json.bool s.broken),
+      ("counter", toJson s.counter)]
+  | _ => err "unknown-lock"
+
 def handle (c : String) (j : Json) : Json :=
   if c.startsWith "ident." then handleIdent c j
+  else if c.startsWith "lock." then handleLock c j
   else err ("unknown-component " ++ c)
 
 end DriverLib
